@@ -75,6 +75,8 @@ class W:
         self.ctx = ctx
         self.ch = world.make_channel(ctx, swarm=False)
         self.net, self.bus = world.make_network(ctx, self.ch, "master")
+        # receive timestamps as the driver delivers them: exact (seconds since start-up, not Unix time), coarse, or always 0.0
+        self.ch.ts_quantum = (0, 0, 0, 100 * MS, -1)[ctx.choice(5, "tsq")]
         self.lss = self.net.lss
         self.slave = None
         if present:
